@@ -759,6 +759,20 @@ class AddressCommand(TestCommand):
     ]
 
 
+    def args_as_tuple(self):
+        """Return arguments as a list."""
+        result = ("address", self.arguments["match-type"])
+        for name in ["header-list", "key-list"]:
+            value = self.arguments[name]
+            if isinstance(value, list):
+                value = tools.to_stringlist(value)
+            if value.startswith("["):
+                result += (tools.to_list(value),)
+            else:
+                result += (value.strip('"'),)
+        return result
+
+
 class AllofCommand(TestCommand):
     accept_children = True
     variable_args_nb = True
